@@ -20,6 +20,9 @@ import (
 	rparams "github.com/ethereum/go-ethereum/params"
 )
 
+// the logs emitted by the last vRun2, flattened (address ++ topics ++ data), per interpreter
+var vLogsI, vLogsR [][]byte
+
 func vRun(code, input []byte) (ri []byte, ei error, rr []byte, er error) {
 	return vRun2(code, input, nil)
 }
@@ -49,6 +52,14 @@ func vRun2(code, input, calleeCode []byte) (ri []byte, ei error, rr []byte, er e
 			st.SetCode(ca, append([]byte{}, calleeCode...))
 		}
 		ri, _, ei = evm.Call(ivm.AccountRef(icommon.Address{}), addr, append([]byte{}, input...), 10000000, zero())
+		vLogsI = nil
+		for _, l := range st.Logs() {
+			f := append([]byte{}, l.Address[:]...)
+			for _, t := range l.Topics {
+				f = append(f, t[:]...)
+			}
+			vLogsI = append(vLogsI, append(f, l.Data...))
+		}
 	}
 	// ---- reference go-ethereum v1.8.27 ----
 	{
@@ -71,6 +82,14 @@ func vRun2(code, input, calleeCode []byte) (ri []byte, ei error, rr []byte, er e
 			st.SetCode(ca, append([]byte{}, calleeCode...))
 		}
 		rr, _, er = evm.Call(rvm.AccountRef(rcommon.Address{}), addr, append([]byte{}, input...), 10000000, zero())
+		vLogsR = nil
+		for _, l := range st.Logs() {
+			f := append([]byte{}, l.Address[:]...)
+			for _, t := range l.Topics {
+				f = append(f, t[:]...)
+			}
+			vLogsR = append(vLogsR, append(f, l.Data...))
+		}
 	}
 	return
 }
@@ -360,4 +379,64 @@ func VerifHarness_C10_call_family() {
 	vReach("executed")
 	vAgree(ri, ei, rr, er, "E3")
 	vAssert(ei == nil && len(ri) == 96, "E3-in-tree-executes")
+}
+
+
+// E8: logs. The contract stores a symbolic word, emits LOG0..LOG2 over a window of its memory,
+// overwrites that memory and emits a second log: both interpreters must have recorded the same
+// logs (emitter, topics, data as of the time of each LOG).
+func VerifHarness_C10_logs() {
+	x, y := vWordM("x", 0x10), vWordM("y", 0x90)
+	topics := vNondetLen("topics", 0, 2)
+	off := byte(vNondetLen("off", 0, 1) * 8)
+	size := byte(vNondetLen("size", 0, 2) * 16)
+	var code []byte
+	code = append(code, 0x7f)
+	code = append(code, x...)
+	code = append(code, 0x60, 0x00, 0x52)
+	emit := func() {
+		for i := 0; i < topics; i++ {
+			code = append(code, 0x60, byte(0xA1+i))
+		}
+		code = append(code, 0x60, size, 0x60, off, byte(0xa0+topics))
+	}
+	emit()
+	code = append(code, 0x7f)
+	code = append(code, y...)
+	code = append(code, 0x60, 0x00, 0x52) // overwrite the logged region
+	emit()
+	code = append(code, 0x00)
+	_, ei, _, er := vRun(code, nil)
+	vReach("executed")
+	vAssert(ei == nil && er == nil, "E8-executes")
+	vAssert(len(vLogsI) == 2 && len(vLogsR) == 2, "E8-two-logs-recorded")
+	if len(vLogsI) == 2 && len(vLogsR) == 2 {
+		vAssert(bytes.Equal(vLogsI[0], vLogsR[0]), "E8-first-log-identical")
+		vAssert(bytes.Equal(vLogsI[1], vLogsR[1]), "E8-second-log-identical")
+	}
+}
+
+// E9: CREATE from a contract. Two creations in a row, each with init code that fails (INVALID),
+// reverts, or succeeds with empty code: the addresses pushed on the stack (they depend on the
+// creator's nonce at each CREATE) must be the same in both interpreters.
+func VerifHarness_C10_create() {
+	inits := [][]byte{{0xfe}, {0x60, 0x00, 0x60, 0x00, 0xfd}, {0x00}}
+	a, b := inits[vNondetLen("first", 0, 2)], inits[vNondetLen("second", 0, 2)]
+	var code []byte
+	create := func(init []byte, resultAt byte) {
+		w := make([]byte, 32)
+		copy(w, init)
+		code = append(code, 0x7f)
+		code = append(code, w...)
+		code = append(code, 0x60, 0x00, 0x52)                                    // init code at mem[0:]
+		code = append(code, 0x60, byte(len(init)), 0x60, 0x00, 0x60, 0x00, 0xf0) // CREATE(value 0, offset 0, size)
+		code = append(code, 0x60, resultAt, 0x52)
+	}
+	create(a, 0x40)
+	create(b, 0x60)
+	code = append(code, 0x60, 0x40, 0x60, 0x40, 0xf3) // return mem[0x40:0x80]
+	ri, ei, rr, er := vRun(code, nil)
+	vReach("executed")
+	vAgree(ri, ei, rr, er, "E9")
+	vAssert(ei == nil && len(ri) == 0x40, "E9-in-tree-executes")
 }
